@@ -53,9 +53,19 @@ pub struct PolicyM {
     /// other `apply-<option>: <yaml value>` rules, written verbatim
     #[serde(default)]
     pub apply_other: Vec<(String, String)>,
+    /// `match-<option>` conditions on string-valued request options: (name, code, value);
+    /// value None is written as null and requires the option to be absent
+    #[serde(default)]
+    pub match_other: Vec<(String, u8, Option<String>)>,
 }
 
+/// The options of one request as the server sees them (instances of a code concatenated).
+pub type ReqOpts = std::collections::BTreeMap<u8, Vec<u8>>;
+
 impl PolicyM {
+    pub fn uses_match_other(&self) -> bool {
+        !self.match_other.is_empty() || self.policies.iter().any(|p| p.uses_match_other())
+    }
     /// levels of policies below and including this one
     pub fn depth(&self) -> usize {
         1 + self.policies.iter().map(|p| p.depth()).max().unwrap_or(0)
@@ -65,7 +75,7 @@ impl PolicyM {
         self.apply_address.contains(&a) || self.policies.iter().any(|p| p.reserves(a))
     }
     fn has_conditions(&self) -> bool {
-        self.match_subnet.is_some() || self.match_chaddr.is_some()
+        self.match_subnet.is_some() || self.match_chaddr.is_some() || !self.match_other.is_empty()
     }
     fn has_addresses(&self) -> bool {
         !self.apply_subnet.is_empty() || !self.apply_range.is_empty() || !self.apply_address.is_empty()
@@ -101,7 +111,7 @@ impl PolicyM {
         }
         s
     }
-    fn conditions_hold(&self, chaddr: &[u8], server_ip: Ipv4Addr) -> bool {
+    fn conditions_hold(&self, chaddr: &[u8], opts: &ReqOpts, server_ip: Ipv4Addr) -> bool {
         if let Some((n, l)) = self.match_subnet {
             if u32::from(server_ip) & mask(l) != u32::from(n) & mask(l) {
                 return false;
@@ -112,13 +122,20 @@ impl PolicyM {
                 return false;
             }
         }
+        for (_, code, want) in &self.match_other {
+            match (want, opts.get(code)) {
+                (None, None) => (),
+                (Some(w), Some(have)) if w.as_bytes() == have.as_slice() => (),
+                _ => return false,
+            }
+        }
         true
     }
-    fn matches(&self, chaddr: &[u8], server_ip: Ipv4Addr) -> bool {
+    fn matches(&self, chaddr: &[u8], opts: &ReqOpts, server_ip: Ipv4Addr) -> bool {
         if self.has_conditions() {
-            self.conditions_hold(chaddr, server_ip)
+            self.conditions_hold(chaddr, opts, server_ip)
         } else {
-            self.policies.iter().any(|p| p.matches(chaddr, server_ip))
+            self.policies.iter().any(|p| p.matches(chaddr, opts, server_ip))
         }
     }
     fn yaml(&self, indent: usize, out: &mut String) {
@@ -137,6 +154,12 @@ impl PolicyM {
         }
         if let Some(m) = &self.match_chaddr {
             line(out, format!("match-hardware-address: \"{}\"", m.iter().map(|b| format!("{:02x}", b)).collect::<Vec<_>>().join(":")));
+        }
+        for (name, _, v) in &self.match_other {
+            line(out, match v {
+                Some(v) => format!("match-{}: \"{}\"", name, v),
+                None => format!("match-{}: null", name),
+            });
         }
         /* YAML hashes cannot repeat a key: at most one of each apply-* is written */
         for (a, l) in self.apply_subnet.iter().take(1) {
@@ -167,11 +190,11 @@ impl PolicyM {
     }
 }
 
-fn eval_policies(ps: &[PolicyM], chaddr: &[u8], server_ip: Ipv4Addr, inherited: Option<BTreeSet<u32>>) -> Option<Option<BTreeSet<u32>>> {
+fn eval_policies(ps: &[PolicyM], chaddr: &[u8], opts: &ReqOpts, server_ip: Ipv4Addr, inherited: Option<BTreeSet<u32>>) -> Option<Option<BTreeSet<u32>>> {
     for p in ps {
-        if p.matches(chaddr, server_ip) {
+        if p.matches(chaddr, opts, server_ip) {
             let pool = if p.has_addresses() { Some(p.own_pool()) } else { inherited.clone() };
-            if let Some(sub) = eval_policies(&p.policies, chaddr, server_ip, pool.clone()) {
+            if let Some(sub) = eval_policies(&p.policies, chaddr, opts, server_ip, pool.clone()) {
                 return Some(sub);
             }
             return Some(pool);
@@ -182,11 +205,11 @@ fn eval_policies(ps: &[PolicyM], chaddr: &[u8], server_ip: Ipv4Addr, inherited: 
 
 /// The `apply-max-lease` in force for a client: policies are applied outside-in along the
 /// first matching policy of each level, an inner value replacing an outer one.
-fn eval_max_lease(ps: &[PolicyM], chaddr: &[u8], server_ip: Ipv4Addr, inherited: Option<u64>) -> Option<u64> {
+fn eval_max_lease(ps: &[PolicyM], chaddr: &[u8], opts: &ReqOpts, server_ip: Ipv4Addr, inherited: Option<u64>) -> Option<u64> {
     for p in ps {
-        if p.matches(chaddr, server_ip) {
+        if p.matches(chaddr, opts, server_ip) {
             let here = p.apply_max_lease.or(inherited);
-            return eval_max_lease(&p.policies, chaddr, server_ip, here);
+            return eval_max_lease(&p.policies, chaddr, opts, server_ip, here);
         }
     }
     inherited
@@ -256,19 +279,24 @@ impl ConfModel {
     }
 
     /// The configured maximum lease time for this client on this interface, if any.
-    pub fn max_lease(&self, chaddr: &[u8], lan: &Lan) -> Option<u64> {
-        eval_max_lease(&self.policies, chaddr, lan.server_ip, None)
+    pub fn max_lease(&self, chaddr: &[u8], opts: &ReqOpts, lan: &Lan) -> Option<u64> {
+        eval_max_lease(&self.policies, chaddr, opts, lan.server_ip, None)
     }
 
     /// D(config, client, interface): the documented address set, or None if
     /// the documentation says this client is not served at all.
     pub fn allowed(&self, chaddr: &[u8], lan: &Lan) -> Option<BTreeSet<u32>> {
-        self.allowed_src(chaddr, lan).0
+        self.allowed_src(chaddr, &ReqOpts::new(), lan).0
+    }
+
+    /// The same for a request carrying these options (match-<option> conditions).
+    pub fn allowed_for(&self, chaddr: &[u8], opts: &ReqOpts, lan: &Lan) -> Option<BTreeSet<u32>> {
+        self.allowed_src(chaddr, opts, lan).0
     }
 
     /// The documented set, and whether it comes from a dhcp-policies pool
     /// (true) or from the top-level `addresses` (false).
-    pub fn allowed_src(&self, chaddr: &[u8], lan: &Lan) -> (Option<BTreeSet<u32>>, bool) {
+    pub fn allowed_src(&self, chaddr: &[u8], opts: &ReqOpts, lan: &Lan) -> (Option<BTreeSet<u32>>, bool) {
         let mut used = BTreeSet::new();
         for p in &self.policies {
             used.extend(p.all_used());
@@ -284,7 +312,7 @@ impl ConfModel {
                 break;
             }
         }
-        let pool = match eval_policies(&self.policies, chaddr, lan.server_ip, base.clone()) {
+        let pool = match eval_policies(&self.policies, chaddr, opts, lan.server_ip, base.clone()) {
             Some(p) => p,
             None => base.clone(),
         };
@@ -654,6 +682,30 @@ pub fn gen_config(r: &mut Rng, lans: &[Lan], clients: &[ClientSpec], allow_polic
         for p in policies.iter_mut() {
             decorate(r, p, 0);
         }
+        /* class-specific sub-pools: a sub-policy that matches a request option (its own stream
+         * of draws, keyed by what has been generated so far, so older seeds keep their plans) */
+        let key = lans.iter().fold(policies.len() as u64, |a, l| a.wrapping_mul(31).wrapping_add(u32::from(l.server_ip) as u64));
+        let mut k = Rng::new(key, "cfg-match-option");
+        for (li, lan) in lans.iter().enumerate() {
+            if !k.chance(0.3) {
+                continue;
+            }
+            let net = Ipv4Addr::from(lan.network());
+            let hs: Vec<u32> = hosts(lan.network(), lan.plen).into_iter().collect();
+            let Some(outer) = policies.iter_mut().find(|p| p.match_subnet == Some((net, lan.plen)) && (!p.apply_subnet.is_empty() || !p.apply_range.is_empty())) else { continue };
+            let _ = li;
+            let a = k.below(hs.len() as u64) as usize;
+            let b = k.range(a as u64, (a as u64 + 3).min(hs.len() as u64 - 1)) as usize;
+            let cond = match k.below(4) {
+                0 => ("class-id".to_string(), 60u8, Some("pxe".to_string())),
+                1 => ("class-id".to_string(), 60u8, None),
+                2 => ("host-name".to_string(), 12u8, Some("host".to_string())),
+                _ => ("user-class".to_string(), 77u8, Some("lab".to_string())),
+            };
+            let sub = PolicyM { match_other: vec![cond], apply_range: vec![(hs[a].into(), hs[b].into())], ..Default::default() };
+            let at = k.below(outer.policies.len() as u64 + 1) as usize;
+            outer.policies.insert(at, sub);
+        }
     }
     ConfModel {
         addresses,
@@ -995,6 +1047,16 @@ pub fn generate(seed: u64, opts: &GenOpts) -> PlanA {
             let mut extra = vec![];
             if r.chance(0.15) {
                 extra.push((60u8, gen_bytes(&mut r, 40, false)));
+            }
+            {
+                /* options that match-<option> policies look at (own stream, keyed by the xid) */
+                let mut k = Rng::new(xid as u64 ^ seed, "msg-match-option");
+                if extra.is_empty() && k.chance(0.3) {
+                    extra.push((60u8, k.pick(&[&b"pxe"[..], &b"pxe"[..], &b"PXE"[..], &b"px"[..], &b"pxe\0"[..]]).to_vec()));
+                }
+                if k.chance(0.15) {
+                    extra.push((77u8, k.pick(&[&b"lab"[..], &b"lab"[..], &b"la"[..]]).to_vec()));
+                }
             }
             if r.chance(0.05) {
                 extra.push((r.range(62, 254) as u8, gen_bytes(&mut r, 255, true)));
